@@ -121,6 +121,7 @@ def start_texts(cfg, rng, n_random, equations=0.25):
 
 
 def parse_start(text, allow_big=False):
+    MR.new_lineage()
     try:
         root = D.parse(text)
     except Exception:
